@@ -510,6 +510,12 @@ fn amount_alphabet() -> Vec<Alt> {
         m("paren-right-nested", "(1 USD - (2 USD - 3 USD))"),
         m("paren-sub-neg", "(1 USD - -2 USD)"),
         m("paren-minus-nosp", "(3-1 USD)"),
+        // paren-expr ::= "(" sp* add-expr sp* ")": blanks before the closing parenthesis, after a commodity and after an inner `)`
+        m("paren-blank-before-close", "(10 USD )"),
+        m("paren-blanks-both-sides", "( 1 USD + 2 USD  )"),
+        m("paren-tab-before-close", "(10 USD\t)"),
+        m("paren-nested-blank-before-close", "((1 USD) )"),
+        m("paren-nested-blanks-everywhere", "( ( 1 USD ) * 2 )"),
         d("neg", "-10 USD", WHY_SIGN),
         d("neg-grouped", "-1,234.50 USD", WHY_SIGN),
     ]
